@@ -75,12 +75,17 @@ func run(repo, out, hooks string) error {
 		return err
 	}
 	overlay := map[string]string{}
+	// Build in a scratch directory and swap it in, so that a concurrent build
+	// using the previous overlay sees either the old or the new tree.
+	final := out
+	out = fmt.Sprintf("%s.tmp-%d", final, os.Getpid())
 	if err := os.RemoveAll(out); err != nil {
 		return err
 	}
 	if err := os.MkdirAll(out, 0o755); err != nil {
 		return err
 	}
+	defer os.RemoveAll(out)
 	h := sha256.New()
 	sort.Slice(pkgs, func(i, j int) bool { return pkgs[i].PkgPath < pkgs[j].PkgPath })
 	for _, p := range pkgs {
@@ -115,7 +120,7 @@ func run(repo, out, hooks string) error {
 			if err := os.WriteFile(dst, buf.Bytes(), 0o644); err != nil {
 				return err
 			}
-			overlay[path] = dst
+			overlay[path] = filepath.Join(final, rel)
 			rep.Files++
 		}
 	}
@@ -142,7 +147,20 @@ func run(repo, out, hooks string) error {
 		return err
 	}
 	rj, _ := json.MarshalIndent(rep, "", " ")
-	return os.WriteFile(filepath.Join(out, "vinject-report.json"), rj, 0o644)
+	if err := os.WriteFile(filepath.Join(out, "vinject-report.json"), rj, 0o644); err != nil {
+		return err
+	}
+	old := fmt.Sprintf("%s.old-%d", final, os.Getpid())
+	os.RemoveAll(old)
+	if _, err := os.Stat(final); err == nil {
+		if err := os.Rename(final, old); err != nil {
+			return err
+		}
+	}
+	if err := os.Rename(out, final); err != nil {
+		return err
+	}
+	return os.RemoveAll(old)
 }
 
 type rewriter struct {
